@@ -390,6 +390,14 @@ func main() {
 		os.Exit(3)
 	}
 	writeIfChanged(filepath.Join(*out, "ServerFacts.lean"), "-- GENERATED by /verif/harness/cmd/extract from /repo's server.go (do not edit)\nnamespace Dns.Gen\n"+p.serverFacts()+"end Dns.Gen\n")
+	lt := p.lexTables()
+	if len(failures) > 0 {
+		for _, f := range failures {
+			fmt.Fprintln(os.Stderr, "extract:", f)
+		}
+		os.Exit(3)
+	}
+	writeIfChanged(filepath.Join(*out, "LexTables.lean"), "-- GENERATED by /verif/harness/cmd/extract from /repo's ztypes.go, msg.go, scan.go (do not edit): what the zone lexer looks tokens up in\nnamespace Dns.Gen\n"+lt+"end Dns.Gen\n")
 	writeIfChanged(filepath.Join(*out, "CopyPlans.lean"), "-- GENERATED by /verif/harness/cmd/extract from /repo's copy() methods and struct definitions (do not edit)\nnamespace Dns.Gen\n"+leanCopyPlans(p.copyPlans())+"end Dns.Gen\n")
 	writeIfChanged(filepath.Join(*out, "DupPlans.lean"), "-- GENERATED by /verif/harness/cmd/extract from /repo's zduplicate.go (do not edit)\nnamespace Dns.Gen\n"+leanDupPlans(dp)+"end Dns.Gen\n")
 	if *snapshot != "" {
